@@ -30,7 +30,7 @@ def digests_in_fresh_interpreter(cases, hashseed):
     return json.loads(r.stdout)
 
 def run(ctx):
-    res = kprops.run_kernel(ctx, 'C03', SPEC, 1200, 30000, oracles=[kprops.oracle_split])
+    res = kprops.run_kernel(ctx, 'C03', SPEC, 1200, 30000, oracles=[kprops.oracle_split], attribute=kprops.split_is_the_cause)
     # reproducibility: same program, same and other interpreter processes, several hash seeds
     rng = random.Random(f'C03-hash-{ctx.seed}')
     cases = kprops.gen_cases(rng, SPEC + [(2, 'res'), (2, 'store'), (2, 'cond')], 150 if ctx.quick else 1500)
